@@ -119,6 +119,9 @@ theorem C10_round_timer_inside_window (r : Nat) (hr : 2 ≤ r) (since base : Int
   simp only [g_future]
   omega
 
+/-- non-vacuity: round 2 sent exactly when the round-1 timer of an attester (base 4 s) fires, 6 s into the slot -/
+example : (2 : Int) ≤ currentEstimatedRound 6000000000 ∧ (4000000000 : Int) + timerElapsed (2 - 1) ≤ 6000000000 := by decide
+
 /-- the same at the level of the validator's guard: on a 12-s-slot network with a realistic clock, a round-r message
     (1 ≤ r) for a started slot, received at or after the previous round's timer deadline, passes `roundWindow` -/
 theorem C10_timely_message_passes_round_window (c : NetCfg) (hc : Cfg12 c) (m : QMsg) (now : GoTime) (hclock : RealisticClock c now)
